@@ -30,6 +30,8 @@ pub enum REv {
     WaitOut(usize),
     /// the peer never sends anything more and never closes
     Never,
+    /// not ready for that many milliseconds of REAL (wall-clock) time - for code that measures with std::time::Instant
+    RealSleep(u64),
 }
 
 #[derive(Debug, Clone)]
@@ -125,6 +127,12 @@ impl AsyncRead for ScriptStream {
             }
             Some(REv::Sleep(_)) => unreachable!(),
             Some(REv::Never) => Poll::Pending,
+            Some(REv::RealSleep(ms)) => {
+                std::thread::sleep(std::time::Duration::from_millis(*ms));
+                me.r.pop_front();
+                cx.waker().wake_by_ref();
+                Poll::Pending
+            }
             Some(REv::WaitOut(n)) => {
                 let n = *n;
                 let mut sh = me.sh.lock().unwrap();
@@ -278,6 +286,8 @@ pub fn parse_rscript(t: &mut Toks) -> PResult<VecDeque<REv>> {
                     REv::Chunk(unhex(&format!("x{}", h))?)
                 } else if let Some(h) = s.strip_prefix("t:") {
                     REv::Sleep(u64::from_str_radix(h, 16).map_err(|e| e.to_string())?)
+                } else if let Some(h) = s.strip_prefix("r:") {
+                    REv::RealSleep(u64::from_str_radix(h, 16).map_err(|e| e.to_string())?)
                 } else if let Some(h) = s.strip_prefix("w:") {
                     REv::WaitOut(usize::from_str_radix(h, 16).map_err(|e| e.to_string())?)
                 } else {
